@@ -672,6 +672,10 @@ class C01(fw.Prop):
         for i in range(250 if tier == "quick" else 2500):
             cases.append({"seed": rng.randrange(1 << 30), "root": "dfg", "allow": ["nested", "order", "md"],
                           "size": rng.choice([5, 8, 10, 14]), "depth": rng.choice([2, 3, 4, 5])})
+        # the tracked dataflow builder (TrackedDfg.add / extend / track_wire / untrack_wire / set_*_outputs): commands
+        # mix tracked indices and explicit wires in any order (drawn last: the seeds of the streams above are unchanged)
+        for i in range(48 if tier == "quick" else 500):
+            cases.append({"seed": rng.randrange(1 << 30), "root": "tdfg"})
         return cases
 
     def program(self, case):
@@ -720,6 +724,7 @@ class C01(fw.Prop):
                 pl = conv_prog(obs["prog"], c["tab"])      # may intern further types: before the table is printed
                 lit = gapp("CProg", pl, gvhugr(c), gbool(obs["same"]), gbool(obs["fake"]))
                 obs["in_model"] = True
+                ctx.__dict__.setdefault("c01_prem", []).append((case, gapp("CPrem", gtab(c["tab"]), pl)))
             except OutOfModel as e:
                 obs["out_of_model"] = str(e)
         if lit is None:
@@ -861,6 +866,17 @@ class C01(fw.Prop):
         for i in res["mon"][:3]:
             out.append(("mutation-not-rejected", "a document with rule `%s` violated by mutation is not rejected by "
                         "that rule" % RULE_NAMES[meta[i][0]], {"rule": RULE_NAMES[meta[i][0]]}))
+        # (e) the decidable premises of the theorems of props/C01.v (spec/BuilderWFS.v) hold of every in-model program
+        # the correspondence was sampled on: otherwise the theorems do not speak about the tested programs
+        pr = ctx.__dict__.get("c01_prem", [])
+        ctx.stats["premise_checked_programs"] = len(pr)
+        if pr:
+            res = fw.eval_cases(ctx.work, self.run_module, [x[1] for x in pr], shard=60, checks=("prem",), tag="prem")
+            ctx.stats["premise_failures"] = len(res["prem"])
+            for i in res["prem"][:3]:
+                out.append(("premise-not-met", "an in-model program the generator believes well formed does not satisfy "
+                            "the well-formedness premises (wt_prog ...) of the theorems of props/C01.v",
+                            {"failing_input": pr[i][0], "signature": "premise:not-met", "program": self.program(pr[i][0])}))
         # (d) agreement with the design-time transcription on the generated documents (model drift, not a verdict)
         fk = ctx.__dict__.get("c01_fake", [])
         ctx.stats["fake_rejected_generated"] = sum(1 for x in fk if not x[1])
@@ -997,6 +1013,15 @@ NAMED = {
             {"k": "call", "func": "local1", "args": [5], "inst": None, "targs": None, "id": 3, "outs": [4]}],
             "outs": [4], "out_tys": ["B"], "defs": []}},
 }
+# seeded change C01-b (missed before the tracked builder was in the stream): a command with an explicit wire BEFORE a
+# tracked index, of different types: op(wire: Bool, idx: Qubit); the index must be re-pointed at output 1, then used
+NAMED["tracked_wire_before_index"] = {
+    "root": "tdfg", "ins": ["B", "Q"], "in_wires": [1, 2], "track_inputs": False, "track_these": [2],
+    "stmts": [
+        {"k": "tadd", "op": ["custom", "cflip", ["B", "Q"], ["B", "Q"]], "args": [["w", 1], ["i", 0]], "outs": [3, None],
+         "via": "add", "id": 1},
+        {"k": "tadd", "op": ["custom", "h", ["Q"], ["Q"]], "args": [["i", 0]], "outs": [None], "via": "add", "id": 2},
+        {"k": "tout", "mode": "indexed", "args": [["w", 3], ["i", 0]], "id": 3}]}
 NEG_NAMED = ["localfn", "divmod_partial_ext"]
 
 PROP = C01()
